@@ -97,3 +97,175 @@ Proof.
         destruct Fuel as [s Es]. rewrite Es. destruct (IH (mkTStore s (ts_stale ts) true)) as (ts' & E & P). exists ts'. split; [exact E|exact P].
     + destruct (IH (mkTStore (ts_nodes ts) (ts_stale ts ++ [part]) false)) as (ts' & E & P). exists ts'. split; [exact E|exact P].
 Qed.
+
+Lemma apply_ops_app' : forall o1 o2 ts, apply_ops ts (o1 ++ o2) =
+  match apply_ops ts o1 with Ok ts1 => apply_ops ts1 o2 | Panic => Panic | OutOfFuel => OutOfFuel end.
+Proof.
+  induction o1 as [|op o1 IH]; intros o2 ts; [reflexivity|]. cbn [app apply_ops].
+  destruct (apply_op ts op); [apply IH|reflexivity|reflexivity].
+Qed.
+
+(* a stored node that no later operation kills is still stored *)
+Lemma keep_alive : forall ops ts ts' k, apply_ops ts ops = Ok ts' ->
+  st_get k (ts_nodes ts) <> None -> (forall op, In op ops -> ~ kills op k) -> st_get k (ts_nodes ts') <> None.
+Proof.
+  induction ops as [|op ops IH]; intros ts ts' k E Hk NK; cbn [apply_ops] in E; [inversion E; subst; exact Hk|].
+  destruct (apply_op ts op) as [t1| |] eqn:E1; try discriminate.
+  apply (IH t1 ts' k E); [|intros o Ho; apply NK; right; exact Ho].
+  pose proof (NK op (or_introl eq_refl)) as N0. destruct op as [v p n|part]; cbn [apply_op] in E1.
+  - inversion E1; subst. cbn [ts_nodes]. rewrite st_get_insert. destruct (skey_eqb k (v, p)); [discriminate|exact Hk].
+  - destruct (ts_pruning ts).
+    + destruct part as [v p|v p]; cbn [kills hits] in N0.
+      * inversion E1; subst. cbn [ts_nodes]. rewrite st_get_remove.
+        destruct (skey_eqb (v, p) k) eqn:E0; [apply skey_eqb_eq in E0; symmetry in E0; contradiction|exact Hk].
+      * destruct (prune_subtree (prune_fuel (ts_nodes ts)) [(v, p)] (ts_nodes ts)) as [s1| |] eqn:E2; try discriminate.
+        inversion E1; subst. cbn [ts_nodes].
+        assert (Q : Forall (fun k0 : skey => path_prefix p (snd k0)) [(v, p)]).
+        { constructor; [exists []; cbn [snd]; rewrite app_nil_r; reflexivity|constructor]. }
+        rewrite (prune_subtree_local p _ _ _ _ Q E2 k N0). exact Hk.
+    + inversion E1; subst. exact Hk.
+Qed.
+
+Lemma inserted_alive : forall ops ts ts' v p, apply_ops ts ops = Ok ts' -> survives ops ->
+  In (v, p) (ins_keys ops) -> st_get (v, p) (ts_nodes ts') <> None.
+Proof.
+  intros ops ts ts' v p E S Hin. apply ins_keys_in in Hin. destruct Hin as [n Hin].
+  apply in_split in Hin. destruct Hin as (o1 & o2 & Eo). subst ops.
+  rewrite apply_ops_app' in E. destruct (apply_ops ts o1) as [t1| |]; try discriminate.
+  cbn [apply_ops apply_op] in E.
+  apply (keep_alive o2 _ ts' (v, p) E).
+  - cbn [ts_nodes]. rewrite st_get_insert, skey_eqb_refl. discriminate.
+  - intros op Hop. apply (S o1 v p n o2 eq_refl op Hop).
+Qed.
+
+(* C18_current_tree_intact, one commit, from the summary of the commit *)
+Theorem facts_intact : forall Q ver ops Rold Rnew ts ts',
+  step_facts Q ver ops Rold Rnew -> apply_ops ts ops = Ok ts' ->
+  (forall k, In k Rold -> st_get k (ts_nodes ts) <> None) ->
+  forall k, In k Rnew -> st_get k (ts_nodes ts') <> None.
+Proof.
+  intros Q ver ops Rold Rnew ts ts' F E Stored k Hk.
+  destruct (sf_reach _ _ _ _ _ F k Hk) as [Hi|[Ho NK]].
+  - destruct k as [v p]. apply (inserted_alive ops ts ts' v p E (sf_surv _ _ _ _ _ F) Hi).
+  - apply (keep_alive ops ts ts' k E (Stored k Ho) NK).
+Qed.
+
+(* C18_stale_dead_forever, one commit: what the commit kills, and what was dead, is unreachable *)
+Theorem facts_dead : forall Q ver ops Rold Rnew (D : list skey) v0,
+  step_facts Q ver ops Rold Rnew -> vers_le v0 Rold -> vers_le v0 D -> v0 < ver ->
+  (forall k, In k D -> ~ In k Rold) ->
+  vers_le ver Rnew /\
+  forall k, (In k D \/ (In k Rold /\ exists op, In op ops /\ kills op k)) -> ~ In k Rnew.
+Proof.
+  intros Q ver ops Rold Rnew D v0 F VR VD Lt Dead.
+  assert (InsV : forall k, In k (ins_keys ops) -> fst k = ver).
+  { intros [v p] Hk. apply ins_keys_in in Hk. destruct Hk as [n Hn]. apply (sf_ops _ _ _ _ _ F) in Hn. cbn in Hn. apply Hn. }
+  split.
+  - intros k Hk. destruct (sf_reach _ _ _ _ _ F k Hk) as [Hi|[Ho _]]; [rewrite (InsV k Hi); lia|specialize (VR k Ho); lia].
+  - intros k Hd Hn. destruct (sf_reach _ _ _ _ _ F k Hn) as [Hi|[Ho NK]].
+    + pose proof (InsV k Hi). assert (fst k <= v0) by (destruct Hd as [Hd|[Hd _]]; [apply VD|apply VR]; exact Hd). lia.
+    + destruct Hd as [Hd|[_ (op & Hop & Kop)]]; [apply (Dead k Hd Ho)|apply (NK op Hop Kop)].
+Qed.
+
+Lemma gkey_inj : forall P a b, gkey P a = gkey P b -> a = b.
+Proof. intros P [v p] [v' p'] E. unfold gkey in E. cbn in E. inversion E. apply app_inv_head in H1. congruence. Qed.
+
+Lemma ins_keys_ops_of_log : forall {A} Q ver (lg : log A),
+  ins_keys (ops_of_log Q ver lg) = map (gkey Q) (new_keys A ver lg).
+Proof.
+  intros A Q ver lg. unfold ops_of_log, new_keys. rewrite ins_keys_app.
+  assert (E2 : ins_keys (map (fun vp => OpStale (StaleNode (fst vp) (Q ++ snd vp))) (l_stale lg)) = []).
+  { induction (l_stale lg) as [|x l IH]; [reflexivity|exact IH]. }
+  rewrite E2, app_nil_r. induction (l_new lg) as [|x l IH]; [reflexivity|]. cbn. rewrite <- IH. reflexivity.
+Qed.
+
+Lemma ops_of_log_cases : forall {A} Q ver (lg : log A) op, In op (ops_of_log Q ver lg) ->
+  (exists p n, op = OpInsert ver (Q ++ p) n /\ In (ver, p) (new_keys A ver lg)) \/
+  (exists v p, op = OpStale (StaleNode v (Q ++ p)) /\ In (v, p) (l_stale lg)).
+Proof.
+  intros A Q ver lg op Hin. unfold ops_of_log in Hin. apply in_app_or in Hin. destruct Hin as [Hin|Hin].
+  - apply in_map_iff in Hin. destruct Hin as ([p n] & E & Hin). left. exists p, (stored n). split; [symmetry; exact E|].
+    unfold new_keys. apply in_map_iff. exists (p, n). split; [reflexivity|exact Hin].
+  - apply in_map_iff in Hin. destruct Hin as ([v p] & E & Hin). right. exists v, p. split; [symmetry; exact E|exact Hin].
+Qed.
+
+Lemma survives_ops_of_log : forall {A} Q ver (lg : log A),
+  (forall v p, In (v, p) (l_stale lg) -> v < ver) -> survives (ops_of_log Q ver lg).
+Proof.
+  intros A Q ver lg Hs. unfold ops_of_log. apply (survives_inserts_then_stales ver).
+  - intros op Hin. apply in_map_iff in Hin. destruct Hin as (x & E & _). eexists _, _, _. split; [symmetry; exact E|reflexivity].
+  - intros op Hin. apply in_map_iff in Hin. destruct Hin as ([v p] & E & Hin). exists v, (Q ++ p). split; [symmetry; exact E|apply (Hs v p Hin)].
+Qed.
+
+Section LIFT.
+  Variable H : list N -> list N.
+  Variable fuel : nat.
+  Hypothesis Hfuel : (0 < fuel)%nat.
+
+  (* ---------- one tier instance at prefix Q, without lower tiers ---------- *)
+  Definition Rs {A} (Q : list N) (root : option (N * node A)) : list skey :=
+    map (gkey Q) (reach A fuel root).
+
+  Lemma tier_facts : forall A (U : list N -> Prop) Q root ver ups h r lg v0,
+    pfree U -> ~ U [] -> ups_ok A U fuel ups -> state_ok H A U fuel root ->
+    tier_put H A fuel root ver ups = Ok (h, r, lg) ->
+    vers_le v0 (Rs Q root) -> v0 < ver ->
+    step_facts Q ver (ops_of_log Q ver lg) (Rs Q root) (Rs Q (Some (ver, r))) /\
+    (forall k, In k (l_stale lg) -> In k (reach A fuel root)).
+  Proof.
+    intros A U Q root ver ups h r lg v0 PF U0 OK SO E VR Lt.
+    destruct (tier_reach_step H A fuel root ver ups U h r lg Hfuel PF U0 OK SO E) as (T1 & T2 & T3 & T4).
+    assert (SV : forall v p, In (v, p) (l_stale lg) -> v < ver).
+    { intros v p Hs. assert (Hin : In (gkey Q (v, p)) (Rs Q root)) by (apply in_map; apply T2; exact Hs).
+      specialize (VR _ Hin). cbn in VR. lia. }
+    split; [|exact T2]. constructor.
+    - intros k Hk. unfold Rs in Hk. apply in_map_iff in Hk. destruct Hk as (k' & Ek & Hk'). subst k.
+      destruct (T1 k' Hk') as [Hn|[Ho Hs]].
+      + left. rewrite ins_keys_ops_of_log. apply in_map. exact Hn.
+      + right. split; [apply in_map; exact Ho|]. intros op Hop Kop.
+        destruct (ops_of_log_cases Q ver lg op Hop) as [(p & n & Eop & _)|(v & p & Eop & Hst)]; subst op; cbn in Kop; [exact Kop|].
+        apply Hs. assert (k' = (v, p)); [|subst; exact Hst]. apply (gkey_inj Q). exact Kop.
+    - intros op Hop. destruct (ops_of_log_cases Q ver lg op Hop) as [(p & n & Eop & _)|(v & p & Eop & Hst)]; subst op; cbn.
+      + split; [reflexivity|apply path_prefix_app].
+      + split; [apply (SV v p Hst)|apply path_prefix_app].
+    - apply survives_ops_of_log. exact SV.
+  Qed.
+
+  (* the substate tier (Delta or Reset) *)
+  Lemma substate_facts : forall (US : list N -> Prop) Q sroot ver u h r ops v0,
+    pfree US -> ~ US [] -> ok_pupd fuel US u -> state_ok H unit US fuel sroot ->
+    substate_tier_put H fuel Q sroot ver u = Ok (h, r, ops) ->
+    vers_le v0 (Rs Q sroot) -> v0 < ver ->
+    step_facts Q ver ops (Rs Q sroot) (Rs Q (Some (ver, r))).
+  Proof.
+    intros US Q sroot ver u h r ops v0 PF U0 OKu SO E VR Lt. unfold substate_tier_put in E.
+    destruct u as [l|l]; cbn [ok_pupd] in OKu; cbv beta iota zeta in E.
+    - remember (map (fun ku : list N * option (list N) => (fst ku, match snd ku with Some v => Some (H v, ver, tt) | None => None end)) l) as ups eqn:Eups.
+      assert (UO : ups_ok unit US fuel ups).
+      { intros x Hx. rewrite Eups in Hx. apply in_map_iff in Hx. destruct Hx as (y & Ey & Hy). subst x. cbn [fst]. apply (OKu y Hy). }
+      match type of E with context [tier_put ?a ?b ?c ?d ?e ?f] => destruct (tier_put a b c d e f) as [[[h1 r1] lg]| |] eqn:ET; try discriminate end.
+      try rewrite ET in E. inversion E as [[Eh Er Eo]]. clear E. try subst r. try subst ops. cbn [app].
+      apply (proj1 (tier_facts unit US Q sroot ver ups _ _ lg v0 PF U0 UO SO ET VR Lt)).
+    - remember (map (fun kv : list N * list N => (fst kv, Some (H (snd kv), ver, tt))) l) as ups eqn:Eups.
+      assert (UO : ups_ok unit US fuel ups).
+      { intros x Hx. rewrite Eups in Hx. apply in_map_iff in Hx. destruct Hx as (y & Ey & Hy). subst x. cbn [fst]. apply (OKu y Hy). }
+      match type of E with context [tier_put ?a ?b ?c ?d ?e ?f] => destruct (tier_put a b c d e f) as [[[h1 r1] lg]| |] eqn:ET; try discriminate end.
+      try rewrite ET in E. inversion E as [[Eh Er Eo]]. clear E. try subst r. try subst ops.
+      assert (SO0 : state_ok H unit US fuel None) by (intros v t E0; discriminate).
+      assert (VR0 : vers_le v0 (Rs Q (@None (N * node unit)))) by (intros k []).
+      destruct (tier_facts unit US Q None ver ups _ _ lg v0 PF U0 UO SO0 ET VR0 Lt) as [F _].
+      match goal with |- step_facts _ _ (?pp ++ _) _ _ => set (pre := pp) end.
+      assert (PreNoIns : forall op, In op pre -> exists v1, op = OpStale (StaleSubtree v1 Q)).
+      { intros op Hop. unfold pre in Hop. destruct sroot as [[v1 t1]|]; [|destruct Hop]. destruct Hop as [Eo|[]]. exists v1. symmetry. exact Eo. }
+      constructor.
+      + intros k Hk. destruct (sf_reach _ _ _ _ _ F k Hk) as [Hi|[[] _]]. left. rewrite ins_keys_app. apply in_or_app. right. exact Hi.
+      + intros op Hop. apply in_app_or in Hop. destruct Hop as [Hop|Hop].
+        * destruct (PreNoIns op Hop) as [v1 Eo]. subst op. cbn. apply path_prefix_refl.
+        * apply (sf_ops _ _ _ _ _ F op Hop).
+      + apply survives_app.
+        * intros o1 v p n o2 Eo. exfalso. assert (Hin : In (OpInsert v p n) pre) by (rewrite Eo; apply in_or_app; right; left; reflexivity).
+          destruct (PreNoIns _ Hin) as [v1 E1]. discriminate.
+        * apply (sf_surv _ _ _ _ _ F).
+        * intros v p n op Hin _. destruct (PreNoIns _ Hin) as [v1 E1]. discriminate.
+  Qed.
+End LIFT.
